@@ -52,6 +52,17 @@ for D in (1, 2, 3):
                        ('the views are not rebound or resized', same_view('d', 0) + ' && ' + same_view('s', 0))],
               covers=[' && '.join('g_n%d == %d' % (k, BNDS[D][k]) for k in range(D)) + (' && d->stride_ < d->sub_.stride_' if D > 1 else ''), 'g_n0 == 0'] + (['g_n0 == 3 && d->stride_ == 2', 'g_n0 == 2 && d->stride_ < 0'] if D == 1 else []),
               assigns=[], **COMMON, tier='quick' if (D == 1 or (D == 2 and nm == 'assign')) else 'thorough')
+    # fill: every viewed element gets the value, nothing else is touched  (D = 1 only: fill(scalar) on a D >= 2 view does not compile at the pinned commit,
+    # adl_fill_n assigns the scalar to sub-views)
+    if D == 1: Check('V%d_fill' % D, ['C05'], params=['d', 's', 'fv'], fn='w_V%d_fill' % D,
+          wrapper=('void', 'multi::subarray<E, %d, E*>* d, multi::subarray<E, %d, E*>* s, int fv' % (D, D), '(void)s; d->fill(E(FV(fv)));'),
+          cxx={'d': VS(D, False), 's': VS(D, False)}, ghosts=G, setup=setup, requires=[bnd, 'EXC == 0'],
+          ensures=[('every viewed element of the destination equals the fill value', 'EXC == 0 && ' + ' && '.join('IMPLIES(%s, G_blk[0].val[%s] == fv)' % (valid(t, D), off('d', t, D)) for t in tuples(D))),
+                   ('every other element of the underlying storage is untouched', ' && '.join('IMPLIES(!%s, G_blk[0].val[%d] == g_va[%d])' % (inview('d', p, D), p, p) for p in range(G_ELEMS))),
+                   ('nothing in the heap is constructed, destroyed, allocated or released; exactly one assignment per viewed element', no_lifecycle + ' && G_nassign == ' + ' * '.join('g_n%d' % k for k in range(D))),
+                   ('the view is not rebound or resized', same_view('d', 0))],
+          covers=[' && '.join('g_n%d == %d' % (k, BNDS[D][k]) for k in range(D)), 'g_n0 == 0'],
+          assigns=[], **COMMON, tier='quick' if D <= 2 else 'thorough')
     # swap of two views: values exchanged element by element
     Check('V%d_swap' % D, ['C05', 'C03'], params=['d', 's'], fn='w_V%d_swap' % D,
           wrapper=('void', 'multi::subarray<E, %d, E*>* d, multi::subarray<E, %d, E*>* s' % (D, D), 'swap(std::move(*d), std::move(*s));'),
